@@ -2,7 +2,7 @@
 import re
 
 from facts import walk, render, role, is_call, null_test, AnalysisBroken
-from engines import render_x, rendered_conds_x, ff, nth_arg, receiver, path, is_this_like, unwrap_defarg
+from engines import facts_x, render_x, rendered_conds_x, ff, nth_arg, receiver, path, is_this_like, unwrap_defarg
 import exc
 import recursion
 from nullflow import nonnull_at
@@ -294,13 +294,23 @@ def run(F, rep):
     rm = [c for c in am.walk() if c.get('k') == 'Call' and c.get('fn') in ('removeAllIssues', 'removeError') and val and am.cfg().node_dominates(val[0], c)]
     rep.check(not rm, 'C01.G1', 'no-issue-removal-after-validation', am.where(), 'issues are removed after validation', 'no removal after validation')
 
+    rep.rule('C01.G4b', 'inside AnalyserImpl::analyseModel the equations\' ASTs are analysed only if the component pass reported no error: every call of analyseEquationAst from analyseModel is reached only where errorCount() != 0 was found false '
+                        '(a root-level <ci> is reported by the component pass and would otherwise be dereferenced through its missing parent)')
+    aim = F.fn1('Analyser::AnalyserImpl::analyseModel')
+    aec = [c for c in aim.walk() if c.get('k') == 'Call' and c.get('fn') == 'analyseEquationAst']
+    if not aec:
+        raise AnalysisBroken('analyseModel: call of analyseEquationAst vanished')
+    for c in aec:
+        rc_ = facts_x(F, aim, c)
+        rep.check(any(('errorCount() != 0' in t_ and not v_) or ('errorCount() == 0' in t_ and v_) for t_, v_ in rc_), 'C01.G4b', 'analyseModel|ast-pass-after-error-gate', aim.where(c),
+                  'analyseEquationAst is reached although the component pass may have reported errors (no `errorCount() != 0` gate holds here)', 'behind the errorCount() gate')
+
     rep.rule('C01.G2', 'Generator::interfaceCode/implementationCode return {} before touching the model when model or profile is null or the model is not valid')
     for nm in ('interfaceCode', 'implementationCode'):
         g = F.fn1('libcellml::Generator::' + nm)
         first = [c for c in g.walk() if c.get('k') == 'Call' and c.get('mc') and c.get('fn') in ('reset', 'addOriginCommentCode')]
         if not first:
             raise AnalysisBroken('Generator::%s: emission start not found' % nm)
-        from engines import facts_x
         rc = facts_x(F, g, first[0])
         need = [('mPimpl->mModel == nullptr', False), ('mPimpl->mProfile == nullptr', False), ('mPimpl->mModel->isValid()', True)]
         miss = [x for x in need if x not in rc]
@@ -337,7 +347,7 @@ def run(F, rep):
 
     # ------------------------------------------------------------------ N: nullable results
     import nullres
-    nullres.run(F, rep, 'C01.N1', kinds=('rootNode', 'importSource.model', 'units(name)', 'variable(name)', 'component(name)', 'ast.parent', 'owningComponent', 'owningModel', 'parent', 'mathmlChildNode', 'variable.units'))
+    nullres.run(F, rep, 'C01.N1', kinds=('rootNode', 'importSource.model', 'units(name)', 'variable(name)', 'component(name)', 'ast.parent', 'owningComponent', 'owningModel', 'parent', 'mathmlChildNode', 'variable.units', 'nonCommentChildNode'))
 
     # ------------------------------------------------------------------ V: what the validator checks is what the later stages use
     rep.rule('C01.V1', 'the text of a <ci>/<cn> token is obtained through the comment-skipping accessors (nonCommentChildNode/-Count, mathmlChild*) both where the validator checks the variable name and where the analyser builds its AST: '
